@@ -1,0 +1,20 @@
+//go:build !verif
+
+// Package verifhook holds the seams the deterministic-simulation harness in
+// /verif attaches to. Without the build tag `verif` every function is an empty
+// stub that the compiler inlines away, so the shipped behaviour is unchanged.
+package verifhook
+
+// Yield marks a point where the simulator may switch to another task.
+func Yield(site string, key ...int) {}
+
+// Released is told about a pooled buffer that is about to go back to its pool.
+func Released(b []byte) {}
+
+// PermuteBatch lets the simulator replay any iteration order of a Go map
+// whose elements were collected into a slice of length n.
+func PermuteBatch(n int, swap func(i, j int)) {}
+
+// ReorderTriplets lets the simulator choose the emission order of serialised
+// tag/length/value triplets.
+func ReorderTriplets(b []byte) []byte { return b }
